@@ -47,6 +47,8 @@ type worker struct {
 	defs  [4]*worker // runtimes whose option defaults were set with json:use-*
 	evals int64      // programs evaluated on this runtime
 
+	capped map[int]*worker // runtimes with Runtime.MaxAlloc set
+
 	bound    bool // c13-ds / c13-db / c13-dm are bound to boundDoc
 	boundDoc string
 }
@@ -57,6 +59,9 @@ func (w *worker) evalCount() int64 {
 		if d != nil {
 			n += d.evals
 		}
+	}
+	for _, d := range w.capped {
+		n += d.evals
 	}
 	return n
 }
@@ -138,6 +143,7 @@ type docCase struct {
 	SN       bool     `json:"string_numbers"`
 	EI       bool     `json:"exact_integers"`
 	Defaults bool     `json:"via_use_defaults,omitempty"`
+	Cap      int      `json:"runtime_max_alloc,omitempty"` // the runtime's per-operation allocation cap (members per container) when set
 }
 
 func modeName(sn, ei bool) string {
@@ -183,6 +189,17 @@ func (w *worker) loadDoc(doc []byte, c docCase) *lisp.LVal {
 	t := w
 	if c.Defaults {
 		t = w.withDefaults(c.SN, c.EI)
+	}
+	if c.Cap > 0 {
+		if w.capped == nil {
+			w.capped = map[int]*worker{}
+		}
+		if w.capped[c.Cap] == nil {
+			k := newWorker()
+			k.env.Runtime.MaxAlloc = c.Cap
+			w.capped[c.Cap] = k
+		}
+		t = w.capped[c.Cap]
 	}
 	t.bindDoc(doc)
 	return t.eval(loadSrc(c.Loader, c.SN, c.EI, c.Defaults))
@@ -369,6 +386,23 @@ func judgeDoc(ref docRef, c docCase, res *lisp.LVal) (f *finding, outcome string
 		return &finding{pre + "host-panic", "no host panic", describe(res)}, "panic"
 	}
 	isErr := res.Type == lisp.LError
+	if c.Cap > 0 {
+		pre += "max-alloc:"
+	}
+	if !isErr {
+		// whatever the document, a load that succeeds never hands back an error value inside the result
+		if where := holdsError(res, "$"); where != "" {
+			return &finding{pre + "loaded-value-holds-an-error-value", "an error is signalled, or a value made of data only", "at " + where + ": " + describe(res)}, "holds-error"
+		}
+	}
+	if c.Cap > 0 && ref.ok && overCap(ref.n, c.Cap) {
+		// unspecified zone: a container with more members than the runtime's
+		// allocation cap.  Refused (not as a syntax error) or loaded as data.
+		if isErr && res.Str == "json:syntax-error" {
+			return &finding{pre + "over-cap-as-syntax-error", "not json:syntax-error (the document is syntactically valid)", describe(res)}, "over-cap:syntax-error"
+		}
+		return nil, "over-cap:" + ifs(isErr, "rejected", "accepted")
+	}
 	if !ref.ok {
 		if !isErr {
 			return &finding{pre + "accepts-invalid:" + ref.why, "rejected (reference: " + ref.why + ")", describe(res)}, "accepted-invalid"
@@ -420,9 +454,60 @@ func judgeDoc(ref docRef, c docCase, res *lisp.LVal) (f *finding, outcome string
 	return nil, "accepted:" + ref.n.kind.String()
 }
 
+// holdsError returns the path of an error value nested in a loaded value.
+func holdsError(v *lisp.LVal, path string) string {
+	switch v.Type {
+	case lisp.LError:
+		return path
+	case lisp.LArray:
+		if len(v.Cells) == 2 {
+			for i, c := range v.Cells[1].Cells {
+				if p := holdsError(c, fmt.Sprintf("%s[%d]", path, i)); p != "" {
+					return p
+				}
+			}
+		}
+	case lisp.LSortMap:
+		ents := v.MapEntries()
+		if ents.Type == lisp.LError {
+			return path + "(entries)"
+		}
+		for _, e := range ents.Cells {
+			if e.Type == lisp.LError {
+				return path + "(entry)"
+			}
+			if p := holdsError(e.Cells[1], fmt.Sprintf("%s.%q", path, e.Cells[0].Str)); p != "" {
+				return p
+			}
+		}
+	}
+	return ""
+}
+
+// overCap: some container of the document has more members than n (objects
+// counted after duplicate names are merged).
+func overCap(n *node, cap int) bool {
+	switch n.kind {
+	case kArr:
+		if len(n.elems) > cap {
+			return true
+		}
+	case kObj:
+		if len(n.members()) > cap {
+			return true
+		}
+	}
+	for _, e := range n.elems {
+		if overCap(e, cap) {
+			return true
+		}
+	}
+	return false
+}
+
 func (w *worker) checkDoc(doc []byte, ref docRef, c docCase) (*finding, string) {
 	f, out := judgeDoc(ref, c, w.loadDoc(doc, c))
-	if f == nil && c.Loader == "string" && !c.Defaults && strings.HasPrefix(out, "accepted:") {
+	if f == nil && c.Loader == "string" && !c.Defaults && c.Cap == 0 && strings.HasPrefix(out, "accepted:") {
 		// a loaded value dumps to a valid, sorted document holding the same data
 		src := "(json:dump-string " + loadSrc(c.Loader, c.SN, c.EI, false) + ifs(c.SN, " :string-numbers true", "") + ")"
 		res := w.eval(src)
